@@ -199,6 +199,66 @@ def run(ctx):
                           "not connect segments" % sorted(reads))
     ctx.exhaustive[R] = True
 
+    R = "C16.edge_filed_per_side"
+    ctx.rule(R, "the counters halve the number of back-references, so every "
+             "edge must be filed once per side even when both sides are the "
+             "same segment end (hairpin links/edges, internal "
+             "self-alignments): _initialize_references with the real "
+             "_add_reference leaves two entries in the collection", floor=3)
+    from .refgraph import RefHooks
+    E = repo.cls("line.edge.GFA2")
+    Lk = repo.cls("line.edge.Link")
+    OL = repo.cls("OrientedLine")
+    LP = repo.cls("LastPos")
+    S1c = repo.cls("line.segment.GFA1")
+
+    class RealAddRef(RefHooks):
+        """lookups return one shared abstract segment whose _refs are real
+        dictionaries; _add_reference is the repository's own code"""
+
+        def method(self, ev, base, name, args, kwargs, node):
+            if name == "_add_reference":
+                return NotImplemented
+            if isinstance(base, Abs) and base.attrs.get("__gfa__") and \
+                    name in ("segment", "line"):
+                return base.attrs["the_segment"]
+            return super().method(ev, base, name, args, kwargs, node)
+
+    def ol(seg, o):
+        return Abs(OL, label="a" + o, line="a", orient=o, name="a")
+    last = Abs(LP, label="7$", value=7)
+    cells = [
+        ("E hairpin a+ a- (sfx/sfx)", E, dict(
+            sid1=ol("a", "+"), sid2=ol("a", "-"), beg1=3, end1=last, beg2=3,
+            end2=last), S, "dovetails_R"),
+        ("E internal self-alignment", E, dict(
+            sid1=ol("a", "+"), sid2=ol("a", "+"), beg1=1, end1=3, beg2=4,
+            end2=6), S, "internals"),
+        ("L hairpin a + a -", Lk, dict(
+            from_segment="a", from_orient="+", to_segment="a",
+            to_orient="-"), S1c, "dovetails_R"),
+    ]
+    for name, cls, fields, segcls, key in cells:
+        ctx.instance(R)
+        seg = Abs(segcls, label="obj:a", name="a", _refs={})
+        g = Abs(None, label="gfa", __gfa__=True, default_cls=segcls,
+                _segments_first_order=False, objects={"a": seg},
+                the_segment=seg)
+        ln = Abs(cls, label="line", _gfa=g, **fields)
+        f = ctx.anchor("%s._initialize_references" % cls.name,
+                       cls.find_method("_initialize_references"))
+        out = eval_function(repo, f, [ln], hooks=RealAddRef(repo))
+        refs = seg.attrs.get("_refs") or {}
+        got = {k: len(v) for k, v in refs.items() if v}
+        ok = out[0] == "return" and got == {key: 2}
+        ctx.oblige(ok)
+        if not ok:
+            ctx.violation(R, f.short, name,
+                          "outcome %s; the segment's collections hold %r, "
+                          "expected two entries under %s (one per side of "
+                          "the edge)" % (out[0], got, key))
+    ctx.exhaustive[R] = True
+
     # the counts stay right after removals only if a removed segment takes all
     # its edges with it (quantifier: "before and after arbitrary mutation
     # histories"): same ITER clause as C02/C05
